@@ -1053,4 +1053,259 @@ Section Root.
     - pose proof (all_closed defs Hclosed _ _ Hd) as CF. destruct (closed_fn_parts_pure fd CF) as [_ [_ CB]].
       eapply (peval_envs0 fd CF); [apply env_ok_combine; eauto | exact CB | exact Q1].
   Qed.
+
+  Lemma lits_all_forallb : forall l,
+    (fix all (l : list expr) : bool := match l with [] => true | a :: l' => lits_ok a && all l' end) l = forallb lits_ok l.
+  Proof. induction l; simpl; auto; try (rewrite IHl; auto). Qed.
+
+  Lemma same_res_then : forall a1 a0 b1 b0, same_res a1 a0 -> same_res b1 b0 -> same_res (then_res a1 b1) (then_res a0 b0).
+  Proof.
+    intros a1 a0 b1 b0 [A1 [A2 [A3 _]]] [B1 [B2 [B3 [B4 [B5 B6]]]]]. unfold same_res. simpl.
+    repeat split; auto; congruence.
+  Qed.
+  Lemma same_res_oc : forall r1 r0 o, same_res r1 r0 -> (forall v, o = OVal v -> envs0 v = true) ->
+    same_res (with_oc r1 o false) (with_oc r0 o false).
+  Proof. intros r1 r0 o [A1 [A2 [A3 _]]] H. unfold same_res. simpl. repeat split; auto. Qed.
+  Lemma same_res_refl_nil : forall o out lg, (forall v, o = OVal v -> envs0 v = true) ->
+    same_res (mkRes o false out lg [] 0) (mkRes o false out lg [] 0).
+  Proof. intros. unfold same_res. simpl. repeat split; auto. Qed.
+
+  Ltac nofuel H N := let Q := fresh "Q" in intro Q; rewrite Q in H; inversion H; subst; apply N; simpl; auto.
+
+  Lemma root_list : forall f, sim_spec f -> forall es s1 s0 r1 v1 s1' r0 v0 s0',
+    rootrel s1 s0 -> forallb lits_ok es = true ->
+    eval_list (eval f true defs) s1 0 es = (r1, v1, s1') -> eval_list (eval f false defs) s0 0 es = (r0, v0, s0') ->
+    r_oc r1 <> OFuel -> r_oc r0 <> OFuel ->
+    same_res r1 r0 /\ rootrel s1' s0' /\ v1 = v0 /\ forallb (fun p => negb (snd p)) v1 = true /\ forallb envs0 (map fst v1) = true.
+  Proof.
+    intros f HS. induction es as [|e es IH]; intros s1 s0 r1 v1 s1' r0 v0 s0' R HL H1 H0 N1 N0.
+    - simpl in *. inversion H1; inversion H0; subst. repeat split; auto. apply same_res_refl_nil. intros v E; inversion E; auto.
+    - simpl in HL. apply andb_prop in HL. destruct HL as [L1 L2]. cbn [eval_list] in H1, H0.
+      destruct (eval f true defs s1 0 e) as [a1 t1] eqn:E1. destruct (eval f false defs s0 0 e) as [a0 t0] eqn:E0.
+      assert (NA1 : r_oc a1 <> OFuel) by nofuel H1 N1.
+      assert (NA0 : r_oc a0 <> OFuel) by nofuel H0 N0.
+      destruct (HS _ _ _ _ _ _ _ R L1 E1 E0 NA1 NA0) as [SA RA].
+      pose proof SA as [O [OUT [LG [RF1 [RF0 EV]]]]]. rewrite <- O in H0.
+      destruct (r_oc a1) as [v| |] eqn:OA.
+      + destruct (is_err v).
+        * inversion H1; inversion H0; subst. split; [exact SA|]. repeat split; auto.
+        * destruct (eval_list (eval f true defs) t1 0 es) as [[b1 w1] u1] eqn:B1.
+          destruct (eval_list (eval f false defs) t0 0 es) as [[b0 w0] u0] eqn:B0.
+          inversion H1; inversion H0; subst. simpl in N1, N0.
+          destruct (IH _ _ _ _ _ _ _ _ RA L2 B1 B0 N1 N0) as [SB [RB [EW [FW VW]]]].
+          subst w0. rewrite RF1, RF0. split; [apply same_res_then; auto|]. repeat split; auto.
+          simpl. rewrite (EV v eq_refl). auto.
+      + inversion H1; inversion H0; subst. split; [exact SA|]. repeat split; auto.
+      + congruence.
+  Qed.
+
+  Theorem root_sim : forall f, sim_spec f.
+  Proof.
+    induction f as [|f IH]; intros e s1 s0 r1 s1' r0 s0' R HL H1 H0 N1 N0.
+    { simpl in H1. inversion H1; subst. exfalso. apply N1. auto. }
+    pose proof (root_list f IH) as IHL.
+    pose proof R as [root [G1 [G0 [IR [C1 C0]]]]].
+    destruct e; simpl in HL; simpl in H1, H0.
+    - (* ELit *)
+      inversion H1; inversion H0; subst. split; auto. apply same_res_refl_nil.
+      intros w W; inversion W; subst. apply nofun_envs0. apply negb_true_iff in HL. auto.
+    - (* EVar *)
+      rewrite (get_root _ _ x G1 IR) in H1. rewrite (get_root _ _ x G0 IR) in H0.
+      destruct (root_get root x) as [[v|]|] eqn:G.
+      + rewrite set_heap_same0 in H1, H0. inversion H1; inversion H0; subst. split; auto. apply same_res_refl_nil.
+        intros w W; inversion W; subst. eapply root_get_envs0; eauto.
+      + inversion H1; inversion H0; subst. split; auto. apply same_res_refl_nil. intros w W; inversion W; auto.
+      + inversion H1; inversion H0; subst. split; auto. apply same_res_refl_nil. intros w W; discriminate.
+    - (* EAssign *)
+      destruct (eval f true defs s1 0 e) as [a1 t1] eqn:E1. destruct (eval f false defs s0 0 e) as [a0 t0] eqn:E0.
+      assert (NA1 : r_oc a1 <> OFuel) by nofuel H1 N1.
+      assert (NA0 : r_oc a0 <> OFuel) by nofuel H0 N0.
+      destruct (IH _ _ _ _ _ _ _ R HL E1 E0 NA1 NA0) as [SA RA].
+      pose proof SA as [O [OUT [LG [RF1 [RF0 EV]]]]]. rewrite <- O in H0.
+      destruct (r_oc a1) as [v| |] eqn:OA.
+      + destruct (is_err v) eqn:EE.
+        * inversion H1; inversion H0; subst. split; auto. apply same_res_oc; auto; intros w W; inversion W; subst; auto.
+        * destruct (assign defs t1 0 x v) as [b1 u1] eqn:B1. destruct (assign defs t0 0 x v) as [b0 u0] eqn:B0.
+          destruct (assign_root _ _ _ _ _ _ _ _ RA (EV v eq_refl) B1 B0) as [EB [RB [FB VB]]]. subst b0.
+          inversion H1; inversion H0; subst. split; auto. apply same_res_then; auto.
+          unfold same_res. repeat split; auto.
+      + inversion H1; inversion H0; subst. split; auto.
+      + congruence.
+    - (* EFun *)
+      destruct (nth_error defs d) as [fd|]; [|inversion H1; inversion H0; subst; split; auto; apply same_res_refl_nil; intros w W; discriminate].
+      destruct (fd_name fd).
+      + destruct (assign defs s1 0 i (VFun d 0)) as [b1 u1] eqn:B1. destruct (assign defs s0 0 i (VFun d 0)) as [b0 u0] eqn:B0.
+        destruct (assign_root _ _ _ _ _ _ _ _ R (eq_refl : envs0 (VFun d 0) = true) B1 B0) as [EB [RB [FB VB]]]. subst b0.
+        assert (SS : same_res b1 b1) by (unfold same_res; repeat split; auto).
+        destruct (r_oc b1) as [v| |] eqn:OB.
+        * destruct (is_err v) eqn:EE; inversion H1; inversion H0; subst; split; auto.
+          apply same_res_oc; auto; intros w W; inversion W; subst; auto.
+        * inversion H1; inversion H0; subst. split; auto.
+        * inversion H1; inversion H0; subst. split; auto.
+      + inversion H1; inversion H0; subst. split; auto. apply same_res_refl_nil. intros w W; inversion W; subst; auto.
+    - (* ECall *)
+      apply andb_prop in HL. destruct HL as [LF LA]. rewrite lits_all_forallb in LA.
+      destruct (eval f true defs s1 0 e) as [a1 t1] eqn:E1. destruct (eval f false defs s0 0 e) as [a0 t0] eqn:E0.
+      assert (NA1 : r_oc a1 <> OFuel) by nofuel H1 N1.
+      assert (NA0 : r_oc a0 <> OFuel) by nofuel H0 N0.
+      destruct (IH _ _ _ _ _ _ _ R LF E1 E0 NA1 NA0) as [SA RA].
+      pose proof SA as [O [OUT [LG [RF1 [RF0 EV]]]]]. rewrite <- O in H0.
+      destruct (r_oc a1) as [fv| |] eqn:OA.
+      + destruct (is_err fv) eqn:EE.
+        * inversion H1; inversion H0; subst. split; auto. apply same_res_oc; auto; intros w W; inversion W; subst; auto.
+        * destruct (eval_list (eval f true defs) t1 0 args) as [[b1 w1] u1] eqn:B1.
+          destruct (eval_list (eval f false defs) t0 0 args) as [[b0 w0] u0] eqn:B0.
+          assert (NB1 : r_oc b1 <> OFuel).
+          { intro Q. rewrite Q in H1. inversion H1; subst. apply N1. simpl. auto. }
+          assert (NB0 : r_oc b0 <> OFuel).
+          { intro Q. rewrite Q in H0. inversion H0; subst. apply N0. simpl. auto. }
+          destruct (IHL _ _ _ _ _ _ _ _ _ RA LA B1 B0 NB1 NB0) as [SB [RB [EW [FW VW]]]]. subst w0.
+          pose proof SB as [OB [OUTB [LGB [RFB1 [RFB0 EVB]]]]]. rewrite <- OB in H0.
+          destruct (r_oc b1) as [av| |] eqn:OBB.
+          -- destruct (is_err av) eqn:EA.
+             ++ inversion H1; inversion H0; subst. split; auto. apply same_res_oc; auto using same_res_then; intros w W; inversion W; subst; auto.
+             ++ destruct (apply_fn (eval f true defs) true defs u1 0 fv w1) as [c1 x1] eqn:A1.
+                destruct (apply_fn (eval f false defs) false defs u0 0 fv w1) as [c0 x0] eqn:A0.
+                inversion H1; inversion H0; subst. simpl in N1, N0.
+                destruct (apply_root _ _ _ _ _ _ _ _ _ RB (EV fv eq_refl) FW VW A1 A0 N1 N0) as [SC RC].
+                split; auto using same_res_then.
+          -- inversion H1; inversion H0; subst. split; auto using same_res_then.
+          -- congruence.
+      + inversion H1; inversion H0; subst. split; auto.
+      + congruence.
+    - (* EArr *)
+      rewrite lits_all_forallb in HL.
+      destruct (eval_list (eval f true defs) s1 0 es) as [[b1 w1] u1] eqn:B1.
+      destruct (eval_list (eval f false defs) s0 0 es) as [[b0 w0] u0] eqn:B0.
+      assert (NB1 : r_oc b1 <> OFuel).
+      { intro Q. rewrite Q in H1. inversion H1; subst. apply N1. simpl. auto. }
+      assert (NB0 : r_oc b0 <> OFuel).
+      { intro Q. rewrite Q in H0. inversion H0; subst. apply N0. simpl. auto. }
+      destruct (IHL _ _ _ _ _ _ _ _ _ R HL B1 B0 NB1 NB0) as [SB [RB [EW [FW VW]]]]. subst w0.
+      pose proof SB as [OB [OUTB [LGB [RFB1 [RFB0 EVB]]]]]. rewrite <- OB in H0.
+      destruct (r_oc b1) as [av| |] eqn:OBB.
+      + destruct (is_err av) eqn:EA; inversion H1; inversion H0; subst; split; auto; apply same_res_oc; auto;
+          intros w W; inversion W; subst; auto; rewrite envs0_arr; auto.
+      + inversion H1; inversion H0; subst. split; auto.
+      + congruence.
+    - (* EBin *)
+      apply andb_prop in HL. destruct HL as [L1 L2].
+      destruct (eval f true defs s1 0 e1) as [a1 t1] eqn:E1. destruct (eval f false defs s0 0 e1) as [a0 t0] eqn:E0.
+      assert (NA1 : r_oc a1 <> OFuel) by nofuel H1 N1.
+      assert (NA0 : r_oc a0 <> OFuel) by nofuel H0 N0.
+      destruct (IH _ _ _ _ _ _ _ R L1 E1 E0 NA1 NA0) as [SA RA].
+      pose proof SA as [O [OUT [LG [RF1 [RF0 EV]]]]]. rewrite <- O in H0.
+      destruct (r_oc a1) as [v1| |] eqn:OA.
+      + destruct (is_err v1) eqn:EE.
+        * inversion H1; inversion H0; subst. split; auto. apply same_res_oc; auto; intros w W; inversion W; subst; auto.
+        * destruct (eval f true defs t1 0 e2) as [b1 u1] eqn:B1. destruct (eval f false defs t0 0 e2) as [b0 u0] eqn:B0.
+          assert (NB1 : r_oc b1 <> OFuel).
+          { intro Q. rewrite Q in H1. inversion H1; subst. apply N1. simpl. auto. }
+          assert (NB0 : r_oc b0 <> OFuel).
+          { intro Q. rewrite Q in H0. inversion H0; subst. apply N0. simpl. auto. }
+          destruct (IH _ _ _ _ _ _ _ RA L2 B1 B0 NB1 NB0) as [SB RB].
+          pose proof SB as [OB [OUTB [LGB [RFB1 [RFB0 EVB]]]]]. rewrite <- OB in H0.
+          destruct (r_oc b1) as [v2| |] eqn:OBB.
+          -- destruct (is_err v2) eqn:E2; inversion H1; inversion H0; subst; split; auto; apply same_res_oc; auto using same_res_then;
+               intros w W; try (inversion W; subst; auto; fail); eapply bin_op_envs0; eauto.
+          -- inversion H1; inversion H0; subst. split; auto using same_res_then.
+          -- congruence.
+      + inversion H1; inversion H0; subst. split; auto.
+      + congruence.
+    - (* EIf *)
+      apply andb_prop in HL. destruct HL as [HL L3]. apply andb_prop in HL. destruct HL as [L1 L2].
+      destruct (eval f true defs s1 0 e1) as [a1 t1] eqn:E1. destruct (eval f false defs s0 0 e1) as [a0 t0] eqn:E0.
+      assert (NA1 : r_oc a1 <> OFuel) by nofuel H1 N1.
+      assert (NA0 : r_oc a0 <> OFuel) by nofuel H0 N0.
+      destruct (IH _ _ _ _ _ _ _ R L1 E1 E0 NA1 NA0) as [SA RA].
+      pose proof SA as [O [OUT [LG [RF1 [RF0 EV]]]]]. rewrite <- O in H0. rewrite RF1 in H1. rewrite RF0 in H0.
+      destruct (r_oc a1) as [vc| |] eqn:OA.
+      + destruct vc; try (inversion H1; inversion H0; subst; split; auto; apply same_res_oc; auto; intros w W; inversion W; subst; auto; fail).
+        destruct (eval f true defs t1 0 (if b then e2 else e3)) as [b1 u1] eqn:B1.
+        destruct (eval f false defs t0 0 (if b then e2 else e3)) as [b0 u0] eqn:B0.
+        inversion H1; inversion H0; subst. simpl in N1, N0.
+        assert (LB : lits_ok (if b then e2 else e3) = true) by (destruct b; auto).
+        destruct (IH _ _ _ _ _ _ _ RA LB B1 B0 N1 N0) as [SB RB].
+        split; auto using same_res_then.
+      + inversion H1; inversion H0; subst. split; auto.
+      + congruence.
+    - (* ESeq *)
+      apply andb_prop in HL. destruct HL as [L1 L2].
+      destruct (eval f true defs s1 0 e1) as [a1 t1] eqn:E1. destruct (eval f false defs s0 0 e1) as [a0 t0] eqn:E0.
+      assert (NA1 : r_oc a1 <> OFuel) by nofuel H1 N1.
+      assert (NA0 : r_oc a0 <> OFuel) by nofuel H0 N0.
+      destruct (IH _ _ _ _ _ _ _ R L1 E1 E0 NA1 NA0) as [SA RA].
+      pose proof SA as [O [OUT [LG [RF1 [RF0 EV]]]]]. rewrite <- O in H0.
+      destruct (r_oc a1) as [v1| |] eqn:OA.
+      + destruct (is_err v1) eqn:EE.
+        * inversion H1; inversion H0; subst. split; auto.
+        * destruct (eval f true defs t1 0 e2) as [b1 u1] eqn:B1. destruct (eval f false defs t0 0 e2) as [b0 u0] eqn:B0.
+          inversion H1; inversion H0; subst. simpl in N1, N0.
+          destruct (IH _ _ _ _ _ _ _ RA L2 B1 B0 N1 N0) as [SB RB].
+          split; auto using same_res_then.
+      + inversion H1; inversion H0; subst. split; auto.
+      + congruence.
+    - (* EPrint *)
+      rewrite lits_all_forallb in HL.
+      destruct (eval_list (eval f true defs) s1 0 es) as [[b1 w1] u1] eqn:B1.
+      destruct (eval_list (eval f false defs) s0 0 es) as [[b0 w0] u0] eqn:B0.
+      assert (NB1 : r_oc b1 <> OFuel).
+      { intro Q. rewrite Q in H1. inversion H1; subst. apply N1. simpl. auto. }
+      assert (NB0 : r_oc b0 <> OFuel).
+      { intro Q. rewrite Q in H0. inversion H0; subst. apply N0. simpl. auto. }
+      destruct (IHL _ _ _ _ _ _ _ _ _ R HL B1 B0 NB1 NB0) as [SB [RB [EW [FW VW]]]]. subst w0.
+      pose proof SB as [OB [OUTB [LGB [RFB1 [RFB0 EVB]]]]]. rewrite <- OB in H0.
+      destruct (r_oc b1) as [av| |] eqn:OBB.
+      + destruct (is_err av) eqn:EA.
+        * inversion H1; inversion H0; subst. split; auto. apply same_res_oc; auto; intros w W; inversion W; subst; auto.
+        * destruct (all_some (map (fun p : value * bool => print_form (fst p)) w1)).
+          -- inversion H1; inversion H0; subst. split; auto. apply same_res_then; auto.
+             apply same_res_refl_nil. intros w W; inversion W; auto.
+          -- inversion H1; inversion H0; subst. split; auto. apply same_res_oc; auto; intros w W; discriminate.
+      + inversion H1; inversion H0; subst. split; auto.
+      + congruence.
+    - (* ELog *) inversion H1; inversion H0; subst. split; auto. apply same_res_refl_nil. intros w W; inversion W; auto.
+    - (* EError *) inversion H1; inversion H0; subst. split; auto. apply same_res_refl_nil. intros w W; inversion W; auto.
+    - (* EExt *)
+      inversion H1; inversion H0; subst. split; auto. unfold same_res. simpl. repeat split; auto.
+      intros w W; inversion W; destruct k; auto.
+    - (* EDel *)
+      destruct (heap0 _ _ G1) as [rest1 EH1]. destruct (heap0 _ _ G0) as [rest0 EH0].
+      destruct IR as [IO [IF IS]].
+      rewrite EH1 in H1. rewrite EH0 in H0. simpl in H1, H0.
+      destruct (find_cell (fr_store root) x) eqn:FC.
+      + inversion H1; inversion H0; subst. split.
+        * unfold same_res. simpl. repeat split; auto. intros w W; inversion W; auto.
+        * exists (with_store root (remove_cell (fr_store root) x)). simpl. repeat split; auto; try constructor.
+          apply remove_store_ok; auto.
+      + rewrite IO in H1, H0. inversion H1; inversion H0; subst. split.
+        * unfold same_res. simpl. repeat split; auto. intros w W; inversion W; auto.
+        * exists root. simpl. repeat split; auto; constructor.
+  Qed.
 End Root.
+
+(* ================================================================ histories *)
+Lemma rootrel_init : forall defs, rootrel defs init_state init_state.
+Proof.
+  intros. exists root_frame. simpl. repeat split; auto; constructor.
+Qed.
+
+Theorem closed_runs_agree : forall defs inputs fuel,
+  closed_session defs inputs = true ->
+  forall s1 s0, rootrel defs s1 s0 ->
+  finished (run true fuel defs s1 inputs) = true -> finished (run false fuel defs s0 inputs) = true ->
+  map obs_of (run true fuel defs s1 inputs) = map obs_of (run false fuel defs s0 inputs).
+Proof.
+  intros defs inputs fuel HC. unfold closed_session in HC. apply andb_prop in HC. destruct HC as [HD HL].
+  induction inputs as [|e rest IH]; intros s1 s0 R F1 F0; simpl; auto.
+  simpl in HL. apply andb_prop in HL. destruct HL as [L1 L2].
+  simpl in F1, F0.
+  destruct (eval fuel true defs s1 0 e) as [r1 s1'] eqn:E1. destruct (eval fuel false defs s0 0 e) as [r0 s0'] eqn:E0.
+  simpl in F1, F0. apply andb_prop in F1. destruct F1 as [N1 F1]. apply andb_prop in F0. destruct F0 as [N0 F0].
+  assert (NF1 : r_oc r1 <> OFuel) by (intro Q; rewrite Q in N1; discriminate).
+  assert (NF0 : r_oc r0 <> OFuel) by (intro Q; rewrite Q in N0; discriminate).
+  destruct (root_sim defs HD fuel e s1 s0 r1 s1' r0 s0' R L1 E1 E0 NF1 NF0) as [[O [OUT [LG _]]] R'].
+  simpl. f_equal.
+  - unfold obs_of. simpl. congruence.
+  - apply IH; auto.
+Qed.
